@@ -52,7 +52,7 @@ class DispatchableMessageQueue(Stoppable):
             EndOfQueue - if queue is stopped the underlying queue contains no entries.
         """
         msg = self.get_nowait()
-        return msg if msg else await self._blocking_read()
+        return msg if msg is not None else await self._blocking_read()
 
     def put_nowait(self, msg: Any):
         """
